@@ -199,9 +199,15 @@ func pureExpr(info *types.Info, e ast.Expr) bool {
 // substTemporaries registers M1 substitutions for one function declaration.
 func substTemporaries(info *types.Info, fd *ast.FuncDecl) {
 	type defInfo struct {
-		n   int
-		rhs ast.Expr
-		bad bool
+		n        int
+		rhs      ast.Expr
+		bad      bool
+		pos      token.Pos // position of the defining statement
+		scopeEnd token.Pos // end of the innermost block that contains it
+	}
+	type assignSite struct {
+		pos   token.Pos
+		inLit bool
 	}
 	defs := map[types.Object]*defInfo{}
 	get := func(o types.Object) *defInfo {
@@ -212,9 +218,39 @@ func substTemporaries(info *types.Info, fd *ast.FuncDecl) {
 		}
 		return d
 	}
-	assigned := map[string]bool{} // exprKeys of every assigned lvalue (before substitution)
-	markAssigned := func(e ast.Expr) { assigned[rawKey(e)] = true }
+	assigned := map[string][]assignSite{} // exprKeys of every assigned lvalue (before substitution)
+	var stack []ast.Node
+	inLit := func() bool {
+		for _, a := range stack {
+			if _, ok := a.(*ast.FuncLit); ok {
+				return true
+			}
+		}
+		return false
+	}
+	scopeEnd := func() token.Pos {
+		for i := len(stack) - 1; i >= 0; i-- {
+			switch b := stack[i].(type) {
+			case *ast.BlockStmt:
+				return b.End()
+			case *ast.CaseClause:
+				return b.End()
+			case *ast.CommClause:
+				return b.End()
+			}
+		}
+		return fd.Body.End()
+	}
+	markAssigned := func(e ast.Expr) {
+		k := rawKey(e)
+		assigned[k] = append(assigned[k], assignSite{e.Pos(), inLit()})
+	}
 	ast.Inspect(fd.Body, func(n ast.Node) bool {
+		if n == nil {
+			stack = stack[:len(stack)-1]
+			return true
+		}
+		stack = append(stack, n)
 		switch x := n.(type) {
 		case *ast.AssignStmt:
 			for i, l := range x.Lhs {
@@ -234,6 +270,7 @@ func substTemporaries(info *types.Info, fd *ast.FuncDecl) {
 				d.n++
 				if x.Tok == token.DEFINE && len(x.Lhs) == len(x.Rhs) && info.Defs[id] != nil {
 					d.rhs = x.Rhs[i]
+					d.pos, d.scopeEnd = x.Pos(), scopeEnd()
 				} else {
 					d.bad = true
 				}
@@ -245,6 +282,7 @@ func substTemporaries(info *types.Info, fd *ast.FuncDecl) {
 					d.n++
 					if len(x.Values) == len(x.Names) {
 						d.rhs = x.Values[i]
+						d.pos, d.scopeEnd = x.Pos(), scopeEnd()
 					} else {
 						d.bad = true
 					}
@@ -273,19 +311,29 @@ func substTemporaries(info *types.Info, fd *ast.FuncDecl) {
 		}
 		return true
 	})
-	stable := func(rhs ast.Expr) bool {
+	// An assignment to an operand can only fall between the definition and a use (uses are
+	// lexically inside the defining block, after the definition) if it lies in that block after
+	// the definition, or in a function literal (which may run at any time). An assignment before
+	// the definition, in a loop header of an enclosing loop or after the defining block can reach
+	// a use only by executing the definition again.
+	stable := func(d *defInfo) bool {
 		ok := true
-		ast.Inspect(rhs, func(n ast.Node) bool {
+		ast.Inspect(d.rhs, func(n ast.Node) bool {
 			e, isExpr := n.(ast.Expr)
 			if !isExpr {
 				return true
 			}
 			switch e.(type) {
 			case *ast.Ident, *ast.SelectorExpr, *ast.IndexExpr, *ast.StarExpr, *ast.SliceExpr:
-				k := rawKey(e)
-				for a := range assigned {
+				k := stripIndex(rawKey(e))
+				for a, sites := range assigned {
+					a = stripIndex(a) // an element store changes the collection the operand reads from
 					if a == k || strings.HasPrefix(k, a+".") || strings.HasPrefix(k, a+"[") {
-						ok = false
+						for _, st := range sites {
+							if st.inLit || (st.pos > d.pos && st.pos < d.scopeEnd) {
+								ok = false
+							}
+						}
 					}
 				}
 			}
@@ -299,7 +347,7 @@ func substTemporaries(info *types.Info, fd *ast.FuncDecl) {
 		if !isVar || d.bad || d.n != 1 || d.rhs == nil || v.Name() == "_" || v.Name() == "err" || v.Name() == "ok" {
 			continue
 		}
-		if !pureExpr(info, d.rhs) || !stable(d.rhs) {
+		if !pureExpr(info, d.rhs) || !stable(d) {
 			continue
 		}
 		// an identifier standing for another identifier is a plain alias; anything else must
@@ -362,6 +410,30 @@ func exprKeyEnv(e ast.Expr, info *types.Info, env map[types.Object]string) strin
 	k := exprKey(e)
 	for _, n := range tmp {
 		delete(keySubst, n)
+	}
+	return k
+}
+
+// stripIndex drops trailing index/slice suffixes: r.keys[i] -> r.keys
+func stripIndex(k string) string {
+	for strings.HasSuffix(k, "]") {
+		depth := 0
+		cut := -1
+		for i := len(k) - 1; i >= 0; i-- {
+			if k[i] == ']' {
+				depth++
+			} else if k[i] == '[' {
+				depth--
+				if depth == 0 {
+					cut = i
+					break
+				}
+			}
+		}
+		if cut < 0 {
+			break
+		}
+		k = k[:cut]
 	}
 	return k
 }
